@@ -29,9 +29,11 @@ def formulations(tier, refs_quick=("straight", "helix"), harsch=True):
     out = []
     for nel in nels:
         for ref in refs:
-            for interp, p in INTERPS:
+            # interpolation varies fastest so that a short prefix of the list already contains every
+            # interpolation and both formulations (cheap --limit runs for mutant demonstrations)
+            for cons in CONS:
                 for mixed in (False, True):
-                    for cons in CONS:
+                    for interp, p in INTERPS:
                         out.append({"interp": interp, "p": p, "mixed": mixed, "cons": cons, "nel": nel, "ref": ref,
                                     "mat": "Simo1986", "full_int": False})
     if tier != "quick":
